@@ -11,7 +11,7 @@ import sys
 from . import mir as M
 
 FULL = (1 << 256) - 1
-K_SAT = 6  # saturation bound for exact gaps between position tokens
+K_SAT = 3  # saturation bound for exact gaps between position tokens
 
 
 def mask_of(pred):
@@ -351,6 +351,45 @@ class State:
                 hi = None if hi is None else hi + suffix * glo
                 lo = None if (lo is None or not gex) else lo + suffix * glo
         return lo, hi, coefsum
+
+    def token_at(self, back):
+        """Ensure a token exists exactly `back` bytes behind the cursor; returns it or None when the
+        position falls into an inexact gap."""
+        if back == 0:
+            return self.cur_tok()
+        # walk the chain from the cursor backwards
+        dist = self.cur_gap
+        if not dist[1] and back > 0:
+            return None
+        if back < dist[0] or (back == dist[0] and False):
+            # split cur_gap: new token between chain[-1] and cursor
+            self.ntok += 1
+            t = "T%d" % self.ntok
+            self.chain.append(t)
+            self.gaps.append((dist[0] - back, True))
+            self.cur_gap = (back, True)
+            return t
+        acc = dist[0]
+        i = len(self.chain) - 1
+        while True:
+            if acc == back:
+                return self.chain[i]
+            if i == 0:
+                return None
+            g = self.gaps[i - 1]
+            if not g[1]:
+                return None
+            if acc + g[0] > back:
+                # split gap i-1 between chain[i-1] and chain[i]
+                self.ntok += 1
+                t = "T%d" % self.ntok
+                d_after = back - acc  # distance from new token to chain[i]
+                self.chain.insert(i, t)
+                self.gaps[i - 1] = (g[0] - d_after, True)
+                self.gaps.insert(i, (d_after, True))
+                return t
+            acc += g[0]
+            i -= 1
 
     def advance(self, n):
         lo, ex = self.cur_gap
@@ -1425,6 +1464,14 @@ class Machine:
 
     def addr_of(self, loc, bits, st=None):
         if loc[0] == "B":
+            if st is not None and loc[2] != 0 and len(loc[1]) == 1 and loc[1][0][1] == 1 and loc[1][0][0] != "E":
+                # name the position by a token of its own, so that integers derived from the
+                # address stay differences of positions instead of collapsing to constants
+                r = st.rel_pos(loc[1], loc[2])
+                if r is not None and r[0] is not None and r[0] == r[1] and r[0] <= 0:
+                    t = st.token_at(-r[0])
+                    if t is not None:
+                        return ("sym", ((t, 1),), 0, bits, False)
             return sym_norm(loc[1], loc[2], bits, False)
         if loc[0] == "Z":
             return mk_int(loc[1], bits)
